@@ -190,13 +190,15 @@ FromRewrite(ro, q) ==
         sv.ips \cup (IF sv.fromup # <<>> THEN Sentinel(q.qt) ELSE {}),
         {[n |-> x[1], t |-> x[2]] : x \in sv.ask}, "Rewrite", "", TRUE)
 
+\* (c and e are bound by quantifiers over singleton sets: TLC evaluates a bound
+\* variable once, a LET definition at every use.)
+ServedWith(S, q, c, e) ==
+    IF e.vals.filt
+    THEN UNION {IF ro.r = "pass" THEN PipeOutcomes(S, q, c, e) ELSE {FromRewrite(ro, q)}
+                : ro \in RW!Outcomes(S.rw, q.name, q.qt)}
+    ELSE PipeOutcomes(S, q, c, e)
 ServedOutcomes(S, q) ==
-    LET c == Who(S.reg, q.cid, q.addr)
-        e == Eff(S, q)
-    IN IF e.vals.filt
-       THEN UNION {IF ro.r = "pass" THEN PipeOutcomes(S, q, c, e) ELSE {FromRewrite(ro, q)}
-                   : ro \in RW!Outcomes(S.rw, q.name, q.qt)}
-       ELSE PipeOutcomes(S, q, c, e)
+    UNION {ServedWith(S, q, c, e) : c \in {Who(S.reg, q.cid, q.addr)}, e \in {Eff(S, q)}}
 
 QueryOutcomes(S, q) ==
     UNION {IF a = "served" THEN ServedOutcomes(S, q) ELSE {Denied(a)}
@@ -215,11 +217,8 @@ IAQ(q) == [name |-> q.name, addr |-> AddrRec(q.addr), cid |-> CidStr(q.cid), qt 
 IsBlockedReason(r) == r \in {"FilteredBlackList", "FilteredBlockedService"}
 
 \* The state after query q got outcome o.
-Commit(S, q, o) ==
-    LET c     == Who(S.reg, q.cid, q.addr)
-        ic    == IACfg(S, q, c)
-        saddr == NumOf(IA!StoredAddr(ic, IAQ(q)).bits)
-        logIt == o.served /\ S.q.on /\ IA!ShouldLog(ic, IAQ(q))
+CommitWith(S, q, o, c, ic, saddr) ==
+    LET logIt == o.served /\ S.q.on /\ IA!ShouldLog(ic, IAQ(q))
         cntIt == o.served /\ S.s.on /\ IA!ShouldCount(ic, IAQ(q))
         entry == [addr |-> saddr, cid |-> q.cid, name |-> q.name, qt |-> q.qt, reason |-> o.reason,
                   rcode |-> o.rcode, cname |-> o.cname, addrs |-> o.addrs, svc |-> o.svc,
@@ -233,6 +232,9 @@ Commit(S, q, o) ==
                   ELSE [total |-> @.total + 1, blocked |-> @.blocked + (IF blk THEN 1 ELSE 0),
                         dom |-> Bump(@.dom, q.name), bdom |-> IF blk THEN Bump(@.bdom, q.name) ELSE @.bdom,
                         cli |-> Bump(@.cli, key)]]
+Commit(S, q, o) ==
+    CHOOSE s \in {CommitWith(S, q, o, c, ic, NumOf(IA!StoredAddr(ic, IAQ(q)).bits))
+                  : c \in {Who(S.reg, q.cid, q.addr)}, ic \in {IACfg(S, q, Who(S.reg, q.cid, q.addr))}} : TRUE
 
 \* ------------------------------------------------------------- the actions
 \* Each yields the SET of admissible [S, out]; out is the outcome record of a
@@ -337,8 +339,15 @@ RECURSIVE SumOver(_, _)
 SumOver(f, ks) == IF ks = {} THEN 0 ELSE LET k == CHOOSE x \in ks : TRUE IN f[k] + SumOver(f, ks \ {k})
 CliKey(x) == <<x.t, x.v>>
 AnonKey(k) == IF k[1] = "a" THEN <<"a", AnonNum(k[2])>> ELSE k
-\* expected / observed count of a client key, after merging by AnonKey when m
-ExpCli(f, k, m) == IF m THEN SumOver(f, {x \in DOMAIN f : AnonKey(x) = AnonKey(k)}) ELSE Cnt(f, k)
+\* A client key of the statistics whose client is marked ignore_statistics NOW
+\* may be missing from top_clients (like names ignored now; the CHANGELOG speaks
+\* of "excluding client activity from ... statistics", the code filters the
+\* list when it is read).
+KeyWho(S, k) == IF k[1] = "a" THEN Who(S.reg, 0, k[2]) ELSE CL!Owner(S.reg, CidId(k[2]))
+KeyOptional(S, k) == \E c \in {KeyWho(S, k)} : Known(c) /\ c.ignS
+\* the keys counted together with k: k itself, or -- merged mode m -- all keys
+\* with the same anonymised form
+Group(f, k, m) == {x \in DOMAIN f : IF m THEN AnonKey(x) = AnonKey(k) ELSE x = k}
 RECURSIVE SumIdx(_, _)
 SumIdx(seq, I) == IF I = {} THEN 0 ELSE LET i == CHOOSE x \in I : TRUE IN seq[i].c + SumIdx(seq, I \ {i})
 ObsCli(seq, k, m) ==
@@ -353,7 +362,9 @@ StatsOK(S, obs) ==
           IN /\ ObsCnt(obs.bdom, n) \in (IF ig THEN {0, b} ELSE {b})
              /\ ObsCnt(obs.dom, n) \in (IF ig THEN {0, c - b, c} ELSE {c - b, c})
     /\ \A k \in DOMAIN S.st.cli \cup {CliKey(obs.cli[i]) : i \in DOMAIN obs.cli} :
-          ObsCli(obs.cli, k, S.anonst) = ExpCli(S.st.cli, k, S.anonst)
+          \E g \in {Group(S.st.cli, k, S.anonst)} :
+          \E opt \in {{x \in g : KeyOptional(S, x)}} :
+              ObsCli(obs.cli, k, S.anonst) \in {SumOver(S.st.cli, (g \ opt) \cup T) : T \in SUBSET opt}
 
 \* ------------------------------------------------------------ the reply
 \* An observed reply r = [c, rcode, cname, addrs] and upstream questions
